@@ -79,6 +79,7 @@ type FuncExec struct {
 	frames     map[*ssa.Function]*frameSpec
 	invDepth   int
 	inGlobalInv bool
+	inlinedCons map[*Contract]bool
 	invSeen    map[int]bool
 	loopFrames map[*ssa.BasicBlock][]string
 	closureSeq int
@@ -241,7 +242,7 @@ func (fx *FuncExec) curName() string {
 	}
 	var parts []string
 	for _, f := range fx.stack[1:] {
-		parts = append(parts, "in:"+shortFuncName(f))
+		parts = append(parts, "in:"+fx.eng.displayName(f))
 	}
 	return strings.Join(parts, "/") + "/"
 }
@@ -683,7 +684,7 @@ func (fx *FuncExec) enterLoop(fn *ssa.Function, l *Loop, reach *Term, st *State,
 	fx.loopPre[l.head] = st.Clone()
 	// 1. invariant holds on entry
 	for _, c := range invs {
-		t, err := fx.evalClause(c, &cenv{fx: fx, fn: fn, st: st, old: fx.entryFor(fn), con: con, body: true, binds: map[string]Value{}, loopPre: fx.loopPre[l.head], pos: l.pos})
+		t, err := fx.evalClause(c, &cenv{fx: fx, fn: fn, st: st, old: fx.entryFor(fn), con: con, body: true, binds: map[string]Value{}, loopPre: fx.loopPre[l.head], pos: l.pos, loopHead: l.head})
 		if err != nil {
 			fx.addObl("shape", "inv:"+c.Label, err.Error(), reach, ts.False())
 			continue
@@ -776,7 +777,7 @@ func (fx *FuncExec) enterLoop(fn *ssa.Function, l *Loop, reach *Term, st *State,
 		}
 	}
 	for _, c := range invs {
-		t, err := fx.evalClause(c, &cenv{fx: fx, fn: fn, st: h, old: fx.entryFor(fn), con: con, body: true, binds: map[string]Value{}, loopPre: fx.loopPre[l.head], pos: l.pos})
+		t, err := fx.evalClause(c, &cenv{fx: fx, fn: fn, st: h, old: fx.entryFor(fn), con: con, body: true, binds: map[string]Value{}, loopPre: fx.loopPre[l.head], pos: l.pos, loopHead: l.head})
 		if err == nil {
 			fx.addFact(hreach, t)
 		}
@@ -1020,13 +1021,47 @@ func (fx *FuncExec) backEdge(fn *ssa.Function, l *Loop, n *node, cond *Term, st 
 			}
 		}
 	}
+	// a loop with several ways back to its head (continue statements) gets one obligation per way, named after the
+	// last call made before jumping back, so that each can be told apart without line numbers
+	site := ""
+	nback := 0
+	for _, p := range l.head.Preds {
+		if l.body[p] {
+			nback++
+		}
+	}
+	if nback > 1 && n != nil && n.blk != nil {
+		site = "@top"
+	search:
+		for b := n.blk; b != nil; {
+			for i := len(b.Instrs) - 1; i >= 0; i-- {
+				if call, ok := b.Instrs[i].(*ssa.Call); ok {
+					var cal *ssa.Function
+					if sc := call.Call.StaticCallee(); sc != nil {
+						cal = sc
+					}
+					nm, ord := fx.callSiteName(fn, &call.Call, cal)
+					if nm == "" && cal == nil {
+						continue
+					}
+					site = fmt.Sprintf("@%s#%d", nm, ord)
+					break search
+				}
+			}
+			if len(b.Preds) == 1 && l.body[b.Preds[0]] && b != l.head {
+				b = b.Preds[0]
+			} else {
+				break
+			}
+		}
+	}
 	for _, c := range l.spec.Invariants {
-		t, err := fx.evalClause(c, &cenv{fx: fx, fn: fn, st: st, old: fx.entryFor(fn), con: con, body: true, binds: map[string]Value{}, loopPre: fx.loopPre[l.head], pos: l.pos})
+		t, err := fx.evalClause(c, &cenv{fx: fx, fn: fn, st: st, old: fx.entryFor(fn), con: con, body: true, binds: map[string]Value{}, loopPre: fx.loopPre[l.head], pos: l.pos, loopHead: l.head})
 		if err != nil {
 			fx.addObl("shape", "inv:"+c.Label, err.Error(), cond, fx.ts.False())
 			continue
 		}
-		fx.addObl("inv-preserve", fmt.Sprintf("loop%d:%s", l.ordinal, c.Label), c.Expr+where, cond, t)
+		fx.addObl("inv-preserve", fmt.Sprintf("loop%d:%s%s", l.ordinal, c.Label, site), c.Expr+where, cond, t)
 	}
 	if d := l.spec.Decreases; d != nil {
 		// find the head state of the matching context
